@@ -707,7 +707,7 @@ func c15Kern(r *run.Run) {
 func c15Ligatures(r *run.Run) {
 	ligs := []rune{0xFB00, 0xFB01, 0xFB02, 0xFB03, 0xFB04}
 	r.Explore(explore.Config{Name: "C15.synthetic-ligatures", Bound: 1},
-		"fonts without GSUB read from a file: proportional and monospaced (by their advance widths; the isFixedPitch field of the post table agrees or contradicts), all 32 subsets of U+FB00..FB04 mapped, with/without f, i, l mapped: proportional fonts ligate exactly the ligatures whose characters they map (longest first), monospaced fonts do not, and nothing is ligated when the caller switches the liga feature off or passes an empty feature map",
+		"fonts without GSUB read from a file: proportional and monospaced (by their advance widths; the isFixedPitch field of the post table agrees or contradicts; .notdef with or without an advance), all 32 subsets of U+FB00..FB04 mapped, with/without f, i, l mapped: proportional fonts ligate exactly the ligatures whose characters they map (longest first), monospaced fonts do not, and nothing is ligated when the caller switches the liga feature off or passes an empty feature map",
 		func(c *explore.Ctx) {
 			mono := c.Bool("monospaced")
 			letters := []rune{'f', 'i', 'l'}
@@ -735,6 +735,11 @@ func c15Ligatures(r *run.Run) {
 					w = 600
 				}
 				ol.Widths = append(ol.Widths, funit.Int16(w))
+			}
+			// a glyph without an advance (here: .notdef) does not make a monospaced font proportional
+			notdefZero := c.Bool(".notdef has no advance")
+			if notdefZero {
+				ol.Widths[0] = 0
 			}
 			f, _ := FontFromChoices(gen.FontOpts{NoMeta: true, NoLayout: true}, 0, 1, 0, 0, 0)
 			f.Outlines = ol
@@ -776,7 +781,7 @@ func c15Ligatures(r *run.Run) {
 			// feature switches: the defaults, the ligatures switched off, no optional feature at all
 			swk := c.Choose(3, "feature switches")
 			sw := []map[string]bool{nil, {"liga": false}, {}}[swk]
-			c.Outcome(mono, fmt.Sprint(cm), swk, postFlag)
+			c.Outcome(mono, fmt.Sprint(cm), swk, postFlag, notdefZero)
 			lay, err := g.NewLayouter(language.English, sw, nil)
 			if err != nil {
 				c.Fail("C15.ligatures", "NewLayouter", "%v", err)
